@@ -246,15 +246,16 @@ class Calls(Exec):
         fr.loc.update(bound)
         return fr
 
-    def eval_spec(self, st, expr, frame, old=None, result=None, extra=None):
+    def eval_spec(self, st, expr, frame, old=None, result=None, extra=None, assume=False):
         "evaluate a contract clause (string) in spec mode -> z3 Bool"
-        v = self.eval_spec_value(st, expr, frame, old, result, extra)
+        v = self.eval_spec_value(st, expr, frame, old, result, extra, assume)
         return self.truthy(st, v)
 
-    def eval_spec_value(self, st, expr, frame, old=None, result=None, extra=None):
+    def eval_spec_value(self, st, expr, frame, old=None, result=None, extra=None, assume=False):
         tree = self.parse_spec(expr)
         s = st.fork()
         s.spec = True
+        s.spec_assume = assume
         s.old = old
         s.result = result
         fr = frame.copy()
@@ -291,9 +292,16 @@ class Calls(Exec):
         for r in c.requires:
             g = self.eval_spec(st, r, fr)
             self.prove(st, g, 'pre@call', node, '%s requires %s' % (c.key.split(':')[1], r))
+        # a closure passed for the callee's callback parameter (DESIGN.md 1.5)
+        cb_closure = None
+        if c.callback and isinstance(bound.get(c.callback['param']), VFn) and \
+                bound[c.callback['param']].what[0] == 'closure':
+            cb_closure = self.callback_closure_pre(st, c, bound, fr, node)
         old = st.fork()
         old.frames.append(fr.copy())
         outs = []
+        if cb_closure is not None:
+            self.callback_closure_havoc(st, cb_closure, node)
         # exceptional continuation(s)
         for exc in c.raises:
             s2 = st.fork()
@@ -301,7 +309,7 @@ class Calls(Exec):
             ev = self.new_object(s2, exc) if exc in REG.classes else VAny()
             ok = True
             for e in c.ensures_on_raise:
-                s2.assume(self.eval_spec(s2, e, fr, old=old, result=ev, extra={'exc': ev}))
+                s2.assume(self.eval_spec(s2, e, fr, old=old, result=ev, extra={'exc': ev}, assume=True))
             if self.feasible(s2):
                 self.exc_sink.append((s2, ev))
         # normal continuation
@@ -313,10 +321,69 @@ class Calls(Exec):
             st.alloc = a2
         res = self.make_fresh(st, RT, 'ret')
         for e in c.ensures:
-            st.assume(self.eval_spec(st, e, fr, old=old, result=res))
+            st.assume(self.eval_spec(st, e, fr, old=old, result=res, assume=True))
         if not self.feasible(st):
             return []
         return [(st, res)]
+
+    def callback_closure_pre(self, st, c, bound, fr, node):
+        """the argument for the callee's callback parameter is a closure of the function under proof:
+        (1) its closure invariant holds now, (2) the callee's callback contract implies the closure's
+        precondition.  Returns the closure's contract."""
+        fv = bound[c.callback['param']]
+        ckey = fv.what[1]
+        cc = REG.fns.get(ckey)
+        if cc is None or not cc.captures:
+            raise Unsupported('closure %s passed as callback has no contract (captures / closure_invariant)' % ckey, node)
+        outer_frame = st.frames[fv.what[2]]
+        for inv in cc.closure_invariant:
+            self.prove(st, self.eval_spec(st, inv, outer_frame, old=st.old), 'closure-init', node, '%s: %s' % (ckey.split('.<locals>.')[-1], inv))
+        # (2) callee's callback contract  =>  closure's requires, for arbitrary callback arguments
+        s2 = st.fork()
+        m2, cfn = loader.get_function(ckey)
+        names = [x.arg for x in cfn.args.args]
+        if len(names) != len(c.callback['args']):
+            self.prove(st, FALSE, 'callback-pre', node, 'callback arity of %s' % ckey)
+            raise PathDead()
+        vals = []
+        for n in names:
+            T = cc.params.get(n)
+            if T is None:
+                raise Unsupported('closure contract %s does not type %r' % (ckey, n), node)
+            vals.append(self.make_fresh(s2, parse_type(T), n))
+        cal_fr = fr.copy()
+        cal_fr.loc.update(zip(c.callback['args'], vals))
+        for r in c.callback['requires']:
+            s2.assume(self.eval_spec(s2, r, cal_fr, assume=True))
+        for inv in cc.closure_invariant:
+            s2.assume(self.eval_spec(s2, inv, outer_frame, old=st.old, assume=True))
+        clo_fr = Frame(m2, ckey, parent=fv.what[2])
+        clo_fr.loc.update(zip(names, vals))
+        # evaluate the closure's requires in a frame whose parent is the defining frame
+        for r in cc.requires:
+            s3 = s2.fork()
+            g = self.eval_spec_in_closure(s3, r, clo_fr)
+            self.prove(s3, g, 'callback-pre', node, '%s requires %s' % (ckey.split('.<locals>.')[-1], r))
+        return (cc, fv.what[2])
+
+    def eval_spec_in_closure(self, st, expr, clo_fr):
+        tree = self.parse_spec(expr)
+        s = st.fork()
+        s.spec = True
+        s.frames.append(clo_fr.copy())
+        v = self.ev1(tree, s)
+        for cnd in s.pc[len(st.pc):]:
+            st.assume(cnd)
+        return self.truthy(st, v)
+
+    def callback_closure_havoc(self, st, cb, node):
+        "the callee may run the closure any number of times: captured state is havocked up to its invariant"
+        cc, frame_idx = cb
+        outer_frame = st.frames[frame_idx]
+        for mexpr in cc.modifies:
+            self.havoc_target(st, mexpr, outer_frame, node)
+        for inv in cc.closure_invariant:
+            st.assume(self.eval_spec(st, inv, outer_frame, old=st.old, assume=True))
 
     def _may_allocate(self, T):
         if T[0] in ('ref', 'list', 'rec'):
@@ -341,6 +408,13 @@ class Calls(Exec):
         mexpr = mexpr.strip()
         if mexpr == '*':
             self.havoc_all(st)
+            return
+        if mexpr == 'owned':
+            bound = st.owner_bound if st.owner_bound is not None else (st.old.alloc if st.old is not None else None)
+            if bound is None:
+                self.havoc_all(st)
+            else:
+                self.havoc_owned(st, bound)
             return
         s = st.fork()
         s.spec = True
@@ -380,8 +454,29 @@ class Calls(Exec):
                 return
         raise Unsupported('modifies clause %r' % mexpr, node)
 
+    def havoc_owned(self, st, bound):
+        """havoc every heap location of objects with reference >= bound (objects owned by the current
+        call); locations of older objects keep their values"""
+        for key, arr in list(st.heap.items()):
+            na = fresh(arr.sort(), 'own')
+            r = fresh_int('fr')
+            st.assume(z3.ForAll([r], z3.Implies(r < bound, z3.Select(na, r) == z3.Select(arr, r))))
+            st.heap[key] = na
+        # keys not touched so far: new generation whose base arrays agree with the old ones below the bound
+        g = next(_HGEN)
+        touched = dict(st.heap)
+        st.hgen_parent = dict(st.hgen_parent)
+        st.hgen_parent[g] = (st.hgen, bound)
+        st.hgen = g
+        st.heap = touched
+        st.hver += 1
+        a2 = fresh_int('alloc')
+        st.assume(a2 >= st.alloc)
+        st.alloc = a2
+
     def havoc_all(self, st):
         st.heap = {}
+        st.hgen_unknown = True
         st.hgen = next(_HGEN)
         st.hver += 1
         a2 = fresh_int('alloc')
@@ -461,6 +556,11 @@ class Calls(Exec):
             body = self.truthy(s, self.ev1(lam.body, s))
             extra = s.pc[len(st.pc):]
             if name == 'forall':
+                # type invariants of heap values met while translating the body (`extra`) are facts about
+                # every well-typed heap: given to the solver when the formula is assumed, available as
+                # hypotheses when it is proved
+                if getattr(st, 'spec_assume', False):
+                    return VBool(z3.ForAll(qs, IMPL(rng, AND(body, *extra))))
                 return VBool(z3.ForAll(qs, IMPL(AND(rng, *extra), body)))
             return VBool(z3.Exists(qs, AND(rng, body, *extra)))
         if name == 'holds':
@@ -473,6 +573,13 @@ class Calls(Exec):
                 raise Unsupported('fresh() without entry snapshot', node)
             return VBool(OR(*[AND(c, x.t >= st.old.alloc) for c, x in (v.alts if isinstance(v, VU) else [(TRUE, v)])
                               if isinstance(x, (VRef, VList, VRec))]))
+        if name == 'owned':
+            v = self.ev1(a[0], st)
+            bound = st.owner_bound if st.owner_bound is not None else (st.old.alloc if st.old is not None else None)
+            if bound is None:
+                raise Unsupported('owned() outside a function with an entry snapshot', node)
+            return VBool(AND(*[IMPL(c, x.t >= bound) for c, x in (v.alts if isinstance(v, VU) else [(TRUE, v)])
+                               if isinstance(x, (VRef, VList, VRec))]))
         if name == 'allocated':
             v = self.ev1(a[0], st)
             return VBool(AND(v.t >= 1, v.t < st.alloc))
@@ -591,6 +698,7 @@ class Calls(Exec):
             if isinstance(v, VList):
                 new = VList(v.elem, st.alloc)
                 st.alloc = simp(st.alloc + 1)
+                self.tag_list(st, new)
                 self.list_set_len(st, new, self.list_len(st, v))
                 for j, sort in enumerate(slots(v.elem)):
                     key = self.items_key(v.elem, j)
